@@ -31,3 +31,24 @@ if os.path.exists(fr):
             out.append(f"| {sha} {subj[5:70]} | {c} | exit={code} | {base} | {wit[:140].replace('|', '/')} |")
 open(os.path.join(V, 'seeded', 'RESULTS.md'), 'w').write('\n'.join(out) + '\n')
 print('\n'.join(out[:12]))
+
+# ---- neutral changes (property-preserving): every check must stay silent
+nrows = []
+for d in sorted(glob.glob(f"{V}/neutral/*/meta.json")):
+    m = json.load(open(d))
+    ch = m.get('checks', {})
+    p = os.path.join(os.path.dirname(d), 'patch.diff')
+    files = sorted(set(re.findall(r'^\+\+\+ b/(\S+)', open(p).read(), re.M)))
+    ran = [c for c in ch if not c.startswith('_')]
+    noisy = [f"{c} (exit {ch[c]['exit']}): {ch[c]['witness'][:110]}" for c in ran if ch[c]['exit'] != 0]
+    nrows.append((m['id'], ', '.join(files), ch.get('_suite', '?'), f"{len(ran) - len(noisy)}/{len(ran)}", '; '.join(noisy).replace('|', '/') or '-',
+                  m.get('disposition', '-')))
+if nrows:
+    nout = ["# Property-preserving changes and the checks' silence", "",
+            "Each row is one change produced by a fresh sub-agent that was asked for a realistic change in the code a property depends on which does NOT break it "
+            "(see `neutral/<id>/`: patch.diff, exercise.py, NOTES.md, meta.json).  `tools/neutral_eval.py` applies each to a scratch copy and runs all 20 quick checks.",
+            "A non-silent check is either a false alarm (corrected, see DESIGN.md section 11) or a change that is not neutral for that property after all (disposition column).", "",
+            "| change | file(s) | suite with the change | silent checks | non-silent | disposition |", "|---|---|---|---|---|---|"]
+    for r in nrows:
+        nout.append('| ' + ' | '.join(r) + ' |')
+    open(os.path.join(V, 'neutral', 'RESULTS.md'), 'w').write('\n'.join(nout) + '\n')
